@@ -11,24 +11,25 @@ From V Require Import Base NameMatch NameMatchLemmas Chart Exec Large LargeLemma
   LegalHistBase LegalHistEntry LegalHistStep LegalHistRun LegalHistWf LegalHistOracle
   RunConformInitialBase RunConformInitialSpec RunConformInitialEngine RunConformInitialEntry RunConformInitialMicro
   RunConformInitialCompose RunConformInitialWf RunConformInitialSelLegal RunConformInitialSelErase RunConformInitialSel
-  RunConformInitialFlat RunConformInitialInit.
+  RunConformInitialFlags RunConformInitialFlat RunConformInitialInit.
 Local Open Scope nat_scope.
 
 (* the static conditions of the run-level theorems *)
 Definition static_ib (c : fchart) : bool :=
-  micro_static_ib c && root_unmentionedb c && chart_named c && root_onexit_emptyb c && root_plainb c && root_singleb c.
+  micro_static_ib c && root_unmentionedb c && chart_named c && root_onexit_emptyb c && root_plainb c.
 
 Lemma static_i_parts late t0 : let c := flatten late t0 in static_ib c = true ->
   MicroStatic c /\ root_unmentionedb c = true /\ chart_named c = true /\ fs_onexit (st c 0) = [] /\
-  (forall g, In g (fs_completion (st c 0)) -> pseudoS c g = false) /\ (exists g, fs_completion (st c 0) = [g]).
+  (forall g, In g (fs_completion (st c 0)) -> pseudoS c g = false) /\ ssorted (fs_completion (st c 0)).
 Proof.
   intros c. unfold static_ib. intros H.
-  apply andb_true_iff in H as [H Bsg]. apply andb_true_iff in H as [H Bpl]. apply andb_true_iff in H as [H Box].
+  apply andb_true_iff in H as [H Bpl]. apply andb_true_iff in H as [H Box].
   apply andb_true_iff in H as [H Bnm]. apply andb_true_iff in H as [H Bun].
-  split; [now apply micro_static_sound|]. split; [exact Bun|]. split; [exact Bnm|]. split; [|split].
+  pose proof (micro_static_sound late t0 H) as HS0.
+  split; [exact HS0|]. split; [exact Bun|]. split; [exact Bnm|]. split; [|split].
   - unfold root_onexit_emptyb in Box. destruct (fs_onexit (st c 0)); [reflexivity | discriminate].
   - now apply root_plainb_sound.
-  - unfold root_singleb in Bsg. destruct (fs_completion (st c 0)) as [|g [|? ?]]; try discriminate. now exists g.
+  - exact (flatten_compound_completion_sorted late t0 0 (ms_root c HS0)).
 Qed.
 
 (* ------------------------------------------------------------------ the relation *)
